@@ -53,15 +53,32 @@ Theorem snapshot_observable :
 Proof. exact snapshot_observable_l. Qed.
 Print Assumptions snapshot_observable.
 
+(* the coil fires only in state ejecting (ball_left for an entrance-counted device whose pulse the driver delayed)
+   and only after the readiness check of this attempt was passed and announced ... *)
 Theorem eject_only_if_room :
   forall c x d y,
     step c x (LPulse d) = Some y ->
-    y = x /\ (f x fS d = EJECTING \/ f x fS d = BL) /\
-    (f x fTG d <> PF ->
-       isdev c (f x fTG d) = true /\
-       Z.of_nat (length (others d (inc x (f x fTG d)))) < cap c (f x fTG d) - f x fC (f x fTG d)).
+    y = x /\ (f x fS d = EJECTING \/ f x fS d = BL) /\ f x fRDY d = 1.
 Proof. exact eject_only_if_room_l. Qed.
 Print Assumptions eject_only_if_room.
+
+(* ... the announcement (balldevice_d_ejecting_ball, posted directly after target.wait_for_ready_to_receive returned)
+   is accepted for a device target only while capacity - counted exceeds the balls the target expects from other
+   sources (MPF's own numbers at the check; the coil fires a few ms later) ... *)
+Theorem ready_only_if_room :
+  forall c x d t n y,
+    step c x (LEjecting d t n) = Some y ->
+    f y fRDY d = 1 /\ f y fTG d = t /\
+    (t <> PF -> isdev c t = true /\ Z.of_nat (length (others d (inc x t))) < cap c t - f x fC t).
+Proof. exact ready_only_if_room_l. Qed.
+Print Assumptions ready_only_if_room.
+
+(* ... and nothing else sets the flag (a new attempt / idle clears it) *)
+Theorem ready_flag_only_from_ejecting :
+  forall c x l y d,
+    step c x l = Some y -> f x fRDY d <> 1 -> f y fRDY d = 1 -> exists t n, l = LEjecting d t n.
+Proof. exact ready_flag_only_from_ejecting_l. Qed.
+Print Assumptions ready_flag_only_from_ejecting.
 
 Theorem chain_needs_available_ball :
   forall c x s t y, step c x (LChain s t) = Some y -> 1 <= f x fA s.
